@@ -1,11 +1,18 @@
 (* C17 — slice utilities rearrange and partition exactly as documented, for all arguments.
    Only statements, each closed by [exact] of a lemma proved in Slice/SliceUtilProofs*.v.
    Vocabulary: a slice is a view (voff, vlen, vcap) into a base list; [window b v] are its
-   elements; [res] is Ok / Panic kind / OutOfFuel (Slice/SliceUtilModel.v, SliceUtilSpec.v). *)
+   elements; [res] is Ok / Panic kind / OutOfFuel (Slice/SliceUtilModel.v, SliceUtilSpec.v).
+
+   "Capacity-clipped" is read as in DESIGN.md section 5: [clipped r], i.e. vcap r = vlen r (the
+   capacity ends at the slice's own end) -- except on the early returns of the pinned code that
+   hand back the input itself: Partition of an empty slice and Chunks with n = 0 or n >= len, where
+   the result IS vs, spare capacity included.  The theorems state exactly that; the strict reading
+   (cap = len for every returned slice) is false on those paths, see
+   [C17_chunks_single_keeps_capacity]. *)
 From Coq Require Import ZArith List Bool Permutation.
 Import ListNotations.
 From Mds Require Import Slice.SliceUtilModel Slice.SliceUtilSpec Slice.SliceUtilProofs Slice.SliceUtilProofsRotate
-  Slice.SliceUtilProofsChunks Slice.SliceUtilProofsPartition.
+  Slice.SliceUtilProofsChunks Slice.SliceUtilProofsPartition Slice.SliceUtilProofsInt.
 Local Open Scope Z_scope.
 
 (* At: for -len <= i < len the element at i, negative i counting from the end; no panic. *)
@@ -32,19 +39,23 @@ Print Assumptions C17_ptr_at.
 Example C17_ptr_at_ex : ptr_at [10; 20; 30] (-3) = Ok (Some 0) /\ ptr_at [10; 20; 30] 3 = Ok None.
 Proof. split; reflexivity. Qed.
 
-(* Head(vs, n), n >= 0: the first min(n, len) elements, as a subslice starting where vs starts. *)
+(* Head(vs, n), n >= 0: the first min(n, len) elements, as a subslice starting where vs starts
+   (its capacity is that of vs: Head does not clip). *)
 Theorem C17_head : forall (T : Type) (b : list T) (v : view) (n : Z),
   valid_view b v -> 0 <= n ->
-  exists r, head v n = Ok r /\ voff r = voff v /\ window b r = firstn (Z.to_nat n) (window b v).
+  exists r, head v n = Ok r /\ voff r = voff v /\ vlen r = Z.min n (vlen v) /\ vcap r = vcap v /\
+            window b r = firstn (Z.to_nat n) (window b v).
 Proof. exact @head_view. Qed.
 Print Assumptions C17_head.
 Example C17_head_ex : head (mkView 2 5 8) 3 = Ok (mkView 2 3 8) /\ head (mkView 2 5 8) 7 = Ok (mkView 2 5 8).
 Proof. split; reflexivity. Qed.
 
-(* Tail(vs, n), n >= 0: the last min(n, len) elements, as a subslice ending where vs ends. *)
+(* Tail(vs, n), n >= 0: the last min(n, len) elements, as a subslice ending where vs ends (its
+   capacity ends where that of vs ends). *)
 Theorem C17_tail : forall (T : Type) (b : list T) (v : view) (n : Z),
   valid_view b v -> 0 <= n ->
-  exists r, tail v n = Ok r /\ voff r + vlen r = voff v + vlen v /\
+  exists r, tail v n = Ok r /\ voff r + vlen r = voff v + vlen v /\ vlen r = Z.min n (vlen v) /\
+            voff r + vcap r = voff v + vcap v /\
             window b r = skipn (Z.to_nat (vlen v - Z.min n (vlen v))) (window b v).
 Proof. exact @tail_view. Qed.
 Print Assumptions C17_tail.
@@ -100,16 +111,18 @@ Proof. reflexivity. Qed.
 
 (* Partition(vs, keep), for every base array, every view in it and every predicate: no panic, no
    fuel exhaustion; the result starts where vs starts and holds exactly the kept elements in their
-   original order; appending to it cannot overwrite an element of vs (its capacity equals its
-   length whenever vs is not empty); vs as a whole is a permutation of its original contents; and
-   nothing outside vs changes. *)
+   original order; appending to it cannot overwrite an element of vs; its capacity equals its
+   length whenever vs is not empty, and for the empty vs the result is vs itself (the only case in
+   which spare capacity survives); vs as a whole is a permutation of its original contents; and
+   nothing outside vs changes.  keep is a Coq function: pure and total. *)
 Theorem C17_partition : forall (T : Type) (keep : T -> bool) (b : list T) (v : view),
   valid_view b v ->
   exists b' r, partition keep b v = Ok (b', r) /\
     voff r = voff v /\
     window b' r = filter keep (window b v) /\
     can_overwrite v r = false /\
-    (0 < vlen v -> vcap r = vlen r) /\
+    (0 < vlen v -> clipped r) /\
+    (vlen v = 0 -> r = v) /\
     Permutation (window b' v) (window b v) /\
     firstn (Z.to_nat (voff v)) b' = firstn (Z.to_nat (voff v)) b /\
     skipn (Z.to_nat (voff v + vlen v)) b' = skipn (Z.to_nat (voff v + vlen v)) b.
@@ -117,12 +130,18 @@ Proof. exact @partition_correct. Qed.
 Print Assumptions C17_partition.
 Example C17_partition_ex :
   partition Z.even [99; 6; 1; 3; 2; 8; 4; 5; 98] (mkView 1 7 8)
-  = Ok ([99; 6; 2; 8; 4; 3; 1; 5; 98], mkView 1 4 4).
-Proof. reflexivity. Qed.
+  = Ok ([99; 6; 2; 8; 4; 3; 1; 5; 98], mkView 1 4 4)
+  /\ (* everything kept, spare capacity behind vs: still clipped *)
+  partition Z.even [99; 6; 2; 98; 97] (mkView 1 2 4) = Ok ([99; 6; 2; 98; 97], mkView 1 2 2)
+  /\ (* nothing kept *)
+  partition Z.even [99; 1; 3; 98; 97] (mkView 1 2 4) = Ok ([99; 1; 3; 98; 97], mkView 1 0 0).
+Proof. repeat split; reflexivity. Qed.
 
 (* Chunks(vs, n), n >= 0: no panic; consecutive subslices whose concatenation is vs; appending to
    any of them cannot overwrite an element of vs; for n > 0 all but the last have length exactly n
-   and the last between 1 and n (0 only when vs is empty); for n = 0 the single chunk vs. *)
+   and the last between 1 and n (0 only when vs is empty); for n = 0 the single chunk vs; every
+   chunk has its capacity clipped to its length, or -- only when n = 0 or n >= len -- the single
+   chunk is vs itself. *)
 Theorem C17_chunks : forall (T : Type) (b : list T) (v : view) (n : Z),
   valid_view b v -> 0 <= n ->
   exists cs, chunks v n = Ok cs /\
@@ -130,11 +149,25 @@ Theorem C17_chunks : forall (T : Type) (b : list T) (v : view) (n : Z),
     tiles (voff v) cs (voff v + vlen v) /\
     Forall (fun c => can_overwrite v c = false) cs /\
     (0 < n -> chunk_lens_ok (vlen v) n (map vlen cs)) /\
-    (n = 0 -> cs = [v]).
+    (n = 0 -> cs = [v]) /\
+    (Forall clipped cs \/ (cs = [v] /\ (n = 0 \/ vlen v <= n))).
 Proof. exact @chunks_doc. Qed.
 Print Assumptions C17_chunks.
 Example C17_chunks_ex : chunks (mkView 2 7 9) 3 = Ok [mkView 2 3 3; mkView 5 3 3; mkView 8 1 1].
 Proof. reflexivity. Qed.
+
+(* Where the strict reading "every chunk has cap = len" fails: whenever the early return is taken
+   (n = 0 or n >= len) the chunk is vs with whatever capacity vs has. *)
+Theorem C17_chunks_single_keeps_capacity : forall (v : view) (n : Z),
+  0 <= n -> n = 0 \/ vlen v <= n -> chunks v n = Ok [v].
+Proof.
+  intros v n Hn H. apply chunks_single_keeps_capacity; [exact Hn|].
+  unfold Gen.SliceIdx.ch_single. destruct H as [->|H]; [reflexivity|].
+  apply orb_true_iff. right. rewrite Z.geb_leb. apply Z.leb_le. exact H.
+Qed.
+Print Assumptions C17_chunks_single_keeps_capacity.
+Example C17_chunks_single_keeps_capacity_ex : chunks (mkView 2 3 6) 3 = Ok [mkView 2 3 6] /\ ~ clipped (mkView 2 3 6).
+Proof. split; [reflexivity | unfold clipped; cbn; discriminate]. Qed.
 
 Theorem C17_chunks_panics : forall (v : view) (n : Z), n < 0 -> chunks v n = Panic PDocMax.
 Proof. exact chunks_negative. Qed.
@@ -144,7 +177,8 @@ Proof. reflexivity. Qed.
 
 (* Batches(vs, n), n >= 0 (after repair F3: also for the empty slice): no panic; exactly
    min(n, len) consecutive subslices; for n > 0 their concatenation is vs; appending to any of them
-   cannot overwrite an element of vs; any two lengths differ by at most one. *)
+   cannot overwrite an element of vs; every one has its capacity clipped to its length; any two
+   lengths differ by at most one. *)
 Theorem C17_batches : forall (T : Type) (b : list T) (v : view) (n : Z),
   valid_view b v -> 0 <= n ->
   exists cs, batches v n = Ok cs /\
@@ -152,6 +186,7 @@ Theorem C17_batches : forall (T : Type) (b : list T) (v : view) (n : Z),
     (0 < n -> concat (map (window b) cs) = window b v) /\
     (0 < n -> tiles (voff v) cs (voff v + vlen v)) /\
     Forall (fun c => can_overwrite v c = false) cs /\
+    Forall clipped cs /\
     (forall c c', In c cs -> In c' cs -> - 1 <= vlen c - vlen c' <= 1).
 Proof. exact @batches_doc. Qed.
 Print Assumptions C17_batches.
@@ -174,3 +209,40 @@ Proof. exact @negative_arguments. Qed.
 Print Assumptions C17_negative_arguments.
 Example C17_negative_arguments_ex : head (mkView 0 3 3) (-1) = Panic PRtSlice /\ stripe [[1; 2]] (-1) = Panic PRtIndex.
 Proof. split; reflexivity. Qed.
+
+(* ---- machine integers ----
+   The theorems above compute in unbounded Z.  The same functions with 64-bit wrap-around after
+   every addition and subtraction (Slice/SliceUtilProofsInt.v) are EQUAL to them for every int64
+   argument -- math.MinInt and math.MaxInt included, documented or not -- on every slice of fewer
+   than 2^62 elements (every Go slice whose elements have a size). *)
+Theorem C17_int64_rotate : forall (T : Type) (l : list T) (k : Z),
+  int64 k -> len62 (zlen l) -> rotate_impl64 l k = rotate_impl l k.
+Proof. exact @rotate_impl64_eq. Qed.
+Print Assumptions C17_int64_rotate.
+Example C17_int64_rotate_ex : rotate_impl64 [1; 2; 3] (- 2 ^ 63) = Panic PDocOffset /\ rotate_impl64 [1; 2; 3] (-1) = Ok [2; 3; 1].
+Proof. split; reflexivity. Qed.
+
+Theorem C17_int64_at : forall (T : Type) (l : list T) (i : Z),
+  int64 i -> zlen l < 2 ^ 63 -> at64 l i = at_ l i /\ ptr_at64 l i = ptr_at l i.
+Proof. intros T l i Hi Hl. split; [apply at64_eq | apply ptr_at64_eq]; assumption. Qed.
+Print Assumptions C17_int64_at.
+Example C17_int64_at_ex : at64 [1; 2; 3] (- 2 ^ 63) = Panic PDocIndex /\ ptr_at64 [1; 2; 3] (- 2 ^ 63) = Ok None.
+Proof. split; reflexivity. Qed.
+
+Theorem C17_int64_views : forall (v : view) (n : Z),
+  int64 n -> len62 (vlen v) -> vlen v <= vcap v ->
+  chunks64 v n = chunks v n /\ batches64 v n = batches v n /\ tail64 v n = tail v n.
+Proof. intros v n Hn Hl Hc. repeat split; [apply chunks64_eq | apply batches64_eq | apply tail64_eq]; assumption. Qed.
+Print Assumptions C17_int64_views.
+Example C17_int64_views_ex :
+  chunks64 (mkView 0 3 3) (2 ^ 63 - 1) = Ok [mkView 0 3 3] /\ batches64 (mkView 0 2 2) (2 ^ 63 - 1) = Ok [mkView 0 1 1; mkView 1 1 1]
+  /\ tail64 (mkView 0 3 3) (- 2 ^ 63) = Panic PRtSlice.
+Proof. repeat split; reflexivity. Qed.
+
+(* The length bound is not idle: on 2^63 - 1 zero-size elements (legal in Go) i + k in Rotate and
+   i + n in Chunks wrap around to -4, and the real code panics (index / slice bounds [-4]). *)
+Theorem C17_int64_overflow_beyond_bound :
+  let n := 2 ^ 63 - 1 in let k := n - 1 in
+  Z.rem (wrap64 (k + k)) n = -4 /\ Z.min (wrap64 (k + k)) n = -4.
+Proof. vm_compute. split; reflexivity. Qed.
+Print Assumptions C17_int64_overflow_beyond_bound.
